@@ -1443,6 +1443,8 @@ def translate(spec, repo, scratch):
     defines = ['UNREACHABLE=__CPROVER_assert(0,"UNREACHABLE reached")'] + list(spec.get("defines", []))
     pp = preprocess(path, repo, defines, undefs, spec.get("incdirs", []))
     pp = re.sub(r"^[ \t]*#[ \t]*pragma[^\n]*$", "", pp, flags=re.M)   # pragmas (pack/GCC options) carry no semantics here
+    for rw in spec.get("global_rewrites", []):      # recipe: textual rewrites of the whole preprocessed unit (types that the C subset cannot name)
+        pp = re.sub(rw["pattern"], rw["repl"], pp)
     clean, marks = strip_linemarkers(pp)
     items = split_items(clean, marks)
     tr = Translator(spec, repo)
